@@ -69,9 +69,9 @@ def main(argv):
             for o in obs:
                 print(f"REPLAY {o.id} [{o.rule}] {o.where}: {o.status.upper()} {o.detail}")
             return 1 if any(o.status == "violation" for o in obs) else 0
-        extra = {}
+        extra = dict(getattr(ctx, "extra", {}) or {})
         if tier == "thorough" and hasattr(mod, "thorough"):
-            extra = mod.thorough(ctx, obs)
+            extra.update(mod.thorough(ctx, obs))
             for o in extra.pop("obligations", []):
                 obs.append(o)
         if tier == "thorough":
